@@ -57,6 +57,22 @@ IndentedFrom(evs, i, ind) ==
          \o IndentedFrom(evs, i + 1, ind)
 Indented(evs, ind) == IndentedFrom(evs, 1, ind)
 
+\* C19 read literally: the property fixes WHERE white space may appear, not how much.  `out` conforms iff it is the plain
+\* rendering with, optionally, a line break and a run of the indent character inserted immediately before a wrapped markup
+\* event that is not the first event and does not follow Text or CData.  (Written = Indented is the stronger statement of
+\* what the code does today; a difference in the amount of indentation only is tagged I.)
+RECURSIVE SkipRun(_, _, _)
+SkipRun(out, p, ch) == IF p < Len(out) /\ At(out, p) = ch THEN SkipRun(out, p + 1, ch) ELSE p
+RECURSIVE ConformsFrom(_, _, _, _, _)
+ConformsFrom(evs, i, out, pos, ch) ==
+    IF i > Len(evs) THEN pos = Len(out)
+    ELSE LET piece == RenderW(evs[i])
+             allowed == i > 1 /\ evs[i].k \in Wrapped /\ evs[i - 1].k \notin {"Text", "CData"}
+             p1 == IF allowed /\ pos < Len(out) /\ At(out, pos) = 10 THEN SkipRun(out, pos + 1, ch) ELSE pos IN
+         /\ StartsAt(out, p1, Len(out), piece)
+         /\ ConformsFrom(evs, i + 1, out, p1 + Len(piece), ch)
+IndentConforms(evs, out, ind) == ConformsFrom(evs, 1, out, 0, ind.ch)
+
 ---------------------------------------------------------------------------
 \* Constructors (C09).  Results are written events [k, b].
 MkStart(name, attrs) ==      \* BytesStart::new(name) + push_attribute((k, v)) for each pair
@@ -139,6 +155,46 @@ LogicalOf(d) ==
       [] d[1] = "elem_empty" -> <<<<"Empty", d[2], d[3]>>>>
       [] d[1] = "elem_cdata" -> <<<<"Start", d[2], d[3]>>, <<"CData", d[4], <<>>>>, <<"End", d[2], <<>>>>>>
       [] OTHER -> <<<<"Start", d[2], d[3]>>, <<"PI", d[4], <<>>>>, <<"End", d[2], <<>>>>>>
+
+---------------------------------------------------------------------------
+\* ElementWriter (src/writer.rs): the start tag under construction and the AttributeIndent state machine
+\*   None -> Spaces(n) on the first attribute (n = name length + 2), -> WriteConfigured(size) on new_line;
+\*   Spaces(n) <-> WriteSpaces(n), Configured(n) <-> WriteConfigured(n): new_line arms, the next attribute writes the indent.
+\* Operations <<"attr", k, v>>, <<"attrs", list>>, <<"nl">>; cur = the writer's indentation length when the element is created.
+\* Without indentation new_line does nothing and every attribute is preceded by one blank.
+EWInit(name) == [buf |-> name, nlen |-> Len(name), st |-> "None", n |-> 0]
+EWAttrBytes(k, v) == k \o <<61, 34>> \o Esc(v, "full") \o <<34>>
+EWAttr(ew, k, v, ind, cur) ==
+    IF ~ind.on THEN [ew EXCEPT !.buf = @ \o <<32>> \o EWAttrBytes(k, v)]
+    ELSE CASE ew.st = "None" -> [ew EXCEPT !.buf = @ \o <<32>> \o EWAttrBytes(k, v), !.st = "Spaces", !.n = ew.nlen + 2]
+           [] ew.st = "WriteSpaces" -> [ew EXCEPT !.buf = @ \o Rep(32, ew.n) \o EWAttrBytes(k, v), !.st = "Spaces"]
+           [] ew.st = "WriteConfigured" -> [ew EXCEPT !.buf = @ \o Rep(ind.ch, cur + ew.n) \o EWAttrBytes(k, v), !.st = "Configured"]
+           [] OTHER -> [ew EXCEPT !.buf = @ \o <<32>> \o EWAttrBytes(k, v)]
+\* with_attributes: the first item goes through the state machine, the rest is appended with one blank each
+EWAttrs(ew, as, ind, cur) ==
+    IF as = <<>> THEN ew
+    ELSE LET e1 == EWAttr(ew, as[1][1], as[1][2], ind, cur) IN
+         [e1 EXCEPT !.buf = @ \o Flatten([i \in 1..(Len(as) - 1) |-> <<32>> \o EWAttrBytes(as[i + 1][1], as[i + 1][2])])]
+EWNewLine(ew, ind) ==
+    IF ~ind.on THEN ew
+    ELSE [ew EXCEPT !.buf = @ \o <<10>>,
+                    !.st = CASE ew.st = "None" -> "WriteConfigured" [] ew.st = "Spaces" -> "WriteSpaces"
+                             [] ew.st = "Configured" -> "WriteConfigured" [] OTHER -> ew.st,
+                    !.n = IF ew.st = "None" THEN ind.size ELSE ew.n]
+EWOp(ew, op, ind, cur) ==
+    CASE op[1] = "attr" -> EWAttr(ew, op[2], op[3], ind, cur)
+      [] op[1] = "attrs" -> EWAttrs(ew, op[2], ind, cur)
+      [] OTHER -> EWNewLine(ew, ind)
+RECURSIVE EWOps(_, _, _, _, _)
+EWOps(ew, ops, i, ind, cur) == IF i > Len(ops) THEN ew ELSE EWOps(EWOp(ew, ops[i], ind, cur), ops, i + 1, ind, cur)
+\* the attributes an operation list stands for
+EWLogical(ops) == Flatten([i \in 1..Len(ops) |-> IF ops[i][1] = "attr" THEN <<<<ops[i][2], ops[i][3]>>>> ELSE IF ops[i][1] = "attrs" THEN ops[i][2] ELSE <<>>])
+\* events written by finishing the element: fin = <<"empty">> | <<"text", s>> | <<"cdata", s>> | <<"pi", s>>
+EWFinish(tag, name, fin) ==
+    CASE fin[1] = "empty" -> <<[k |-> "Empty", b |-> tag]>>
+      [] fin[1] = "text" -> <<[k |-> "Start", b |-> tag], MkText(fin[2]), [k |-> "End", b |-> name]>>
+      [] fin[1] = "cdata" -> <<[k |-> "Start", b |-> tag], [k |-> "CData", b |-> fin[2]], [k |-> "End", b |-> name]>>
+      [] OTHER -> <<[k |-> "Start", b |-> tag], [k |-> "PI", b |-> fin[2]], [k |-> "End", b |-> name]>>
 
 ---------------------------------------------------------------------------
 \* Reading back what was written (reader + attribute + escape specs composed).
